@@ -104,6 +104,8 @@ pub enum Item {
     RChunk { seed: u64, max: u64 },
     // size hint reported by statx for the script
     Hint { size: u64 },
+    // file type reported for the script: 1 fifo, 2 character device (size 0, not seekable)
+    FType { kind: u8 },
     // script delivery stops after k bytes
     Eof { k: u64 },
     // stored byte at off replaced by bytes
@@ -122,6 +124,7 @@ impl Item {
             Item::WChunk { fd, seed, max } => format!("wchunk={fd}:{seed}:{max}"),
             Item::RChunk { seed, max } => format!("rchunk={seed}:{max}"),
             Item::Hint { size } => format!("hint={size}"),
+            Item::FType { kind } => format!("ftype={}", if *kind == 2 { "chr" } else { "fifo" }),
             Item::Eof { k } => format!("eof={k}"),
             Item::Flip { off, bytes } => format!("flip={off}:{}", hex(bytes)),
             Item::Kill { seq } => format!("kill={seq}"),
@@ -161,6 +164,7 @@ impl Item {
                 Some(Item::RChunk { seed: a.parse().ok()?, max: b.parse().ok()? })
             }
             "hint" => Some(Item::Hint { size: val.parse().ok()? }),
+            "ftype" => Some(Item::FType { kind: if val == "chr" { 2 } else { 1 } }),
             "eof" => Some(Item::Eof { k: val.parse().ok()? }),
             "flip" => {
                 let (a, b) = val.split_once(':')?;
@@ -176,7 +180,7 @@ impl Item {
             Item::Write { act, .. } | Item::Read { act, .. } | Item::Open { act, .. } | Item::Cwd { act, .. } => {
                 act.is_invisible()
             }
-            Item::WChunk { .. } | Item::RChunk { .. } | Item::Hint { .. } => true,
+            Item::WChunk { .. } | Item::RChunk { .. } | Item::Hint { .. } | Item::FType { .. } => true,
             Item::Eof { .. } | Item::Flip { .. } | Item::Kill { .. } => false,
         }
     }
@@ -190,6 +194,7 @@ impl Item {
             Item::WChunk { fd, .. } => format!("wchunk{fd}"),
             Item::RChunk { .. } => "rchunk".to_string(),
             Item::Hint { .. } => "size-hint".to_string(),
+            Item::FType { .. } => "file-type".to_string(),
             Item::Eof { .. } => "eof-early".to_string(),
             Item::Flip { .. } => "flip".to_string(),
             Item::Kill { .. } => "kill".to_string(),
